@@ -155,6 +155,42 @@ class _KillAt:
         return False
 
 
+class _ActAt:
+    """Counts the file-system PROBES of a handler (os.readlink / lstat / stat / listdir / scandir, which
+    is what islink, exists, isdir and glob come down to) and runs `action` right before the k-th one: a
+    second actor (the node monitor) acting between two steps of the manager."""
+    NAMES = ('readlink', 'lstat', 'stat', 'listdir', 'scandir')
+
+    def __init__(self, k, action):
+        self.k, self.n, self.action, self.fired, self.busy = k, 0, action, False, False
+        self._patches = []
+
+    def _wrap(self, real):
+        def call(*a, **kw):
+            if not self.busy:
+                self.n += 1
+                if self.n == self.k and not self.fired:
+                    self.busy = True
+                    try:
+                        self.fired = bool(self.action())
+                    finally:
+                        self.busy = False
+            return real(*a, **kw)
+        return call
+
+    def __enter__(self):
+        for name in self.NAMES:
+            p = mock.patch.object(os, name, self._wrap(getattr(os, name)))
+            p.start()
+            self._patches.append(p)
+        return self
+
+    def __exit__(self, *exc):
+        for p in reversed(self._patches):
+            p.stop()
+        return False
+
+
 class _StubRuntimeCls:
     """Stands in for the runtime plugin class in configure.load_runtime_manifest:
     the runtime specific manifest processing (system services, keytabs, ... -
@@ -559,7 +595,29 @@ class Node:
         return None
 
 
+def _meddle(node, k):
+    """One delivery during which the node monitor handles the tombstone of a running container right
+    before the handler's k-th file-system probe.  A line `Meddled` (judged by the state clause only) if the
+    monitor acted, otherwise the ordinary line of the delivery."""
+    done = []
+
+    def monitor():
+        for (a, g) in list(node.tomb):
+            if node._running_target(a) == node._container_dir(a, g):      # pylint: disable=protected-access
+                if node.op_MonitorCleanup(a, g) is not None:
+                    done.extend([a, g])
+                    return True
+        return False
+    with _ActAt(k, monitor):
+        res = node.op_Deliver()
+    if res is None or not done:
+        return res
+    return 'Meddled', [res[0], res[1][0], done[0], done[1]]
+
+
 def _apply(node, op, args, late, svc=False):
+    if op == 'Meddle':
+        return _meddle(node, int(args[0]))
     if op == 'CleanupCompletes':
         return node.op_CleanupCompletes(*args[:3], svc=svc)
     if op in ('OnCreated', 'OnDeleted', 'OnModified', 'Deliver'):
@@ -614,6 +672,10 @@ def enabled_ops(post, instances, maxgen, gens, late, svc=False, crash=False):
         ops.append((0.5, 'NodeStart', []))
     if post['pending']:
         ops.append((5.0 + 2 * len(post['pending']), 'Deliver', []))
+        if crash and post['tomb']:
+            # the node monitor acts between two file-system probes of the handler
+            for k in (1, 2, 3, 4, 5, 6, 7, 8, 10, 12, 14, 17, 20, 25):
+                ops.append((1.2, 'Meddle', [k]))
         if crash:
             # kill points inside the handler: configure makes 4 link/rename calls
             # (app.json, trace event, staged link, rename), terminate one
@@ -657,7 +719,9 @@ def replay(history=None, rng=None, depth=0, instances=('a1', 'a2'), maxgen=2, la
             if node.exc:
                 line['exc'] = node.exc
             lines.append(line)
-            if res[0] == 'Crash' or (op == 'Crash' and res[0] in _EVNAME.values()):
+            if op == 'Meddle':
+                eff.append(['Meddle', list(args[:1])])
+            elif res[0] == 'Crash' or (op == 'Crash' and res[0] in _EVNAME.values()):
                 eff.append(['Crash', list(args[:1])])       # replays as the same kill point
             else:
                 eff.append(['Deliver' if res[0] in _EVNAME.values() else
